@@ -171,9 +171,9 @@ func jobC09(c *rt.Ctx) {
 		}
 	}
 	// scan: predicate == model for every y in [0, 2^13) x both sign bits (thorough 2^16)
-	lim := 1 << 13
+	lim := 1 << 14
 	if c.Thorough() {
-		lim = 1 << 16
+		lim = 1 << 18
 	}
 	var b [32]byte
 	for y := 0; y < lim; y++ {
